@@ -11,7 +11,7 @@
     followed by what coq/extract/scope_driver.ml does with the serialisation.  Executable definitions only. *)
 From Coq Require Import List NArith Bool String.
 From TG.Gen Require Import GenTokens GenAst GenGrammar.
-From TG.Model Require Import Chars Lexer Prep Tree ParserPrims GInterp AstAccess Folding.
+From TG.Model Require Import Chars Lexer Prep Tree ParserPrims GInterp AstAccess.
 From TG.Model Require Includes Host.
 From TG.Model Require Import CoreAst AstToCore Scope Indexer.
 Import ListNotations.
@@ -53,14 +53,27 @@ Global Instance FPathAlg : Includes.PathAlg fpath text :=
 (** * One parsed file *)
 Record pfile : Type := mkPf {
   pf_path : fpath;
-  pf_len : N;                                             (* byte length of the text *)
+  pf_text : text;
   pf_out : parse_out                                      (* syntax::parse *)
 }.
+Definition pf_len (p : pfile) : N := bytes (pf_text p).   (* byte length of the text *)
+Definition parse_file (pfuel : nat) (path : fpath) (txt : text) : pfile :=
+  mkPf path txt (parse_with pfuel grammar_prog grammar_entry txt).
 
 Definition pf_tree (p : pfile) : option tree :=
   match pf_out p with ParseOk t _ _ => Some t | _ => None end.
 Definition pf_errors (p : pfile) : list (N * N * parse_msg) :=
   match pf_out p with ParseOk _ es _ => es | _ => [] end.
+
+(** utils::range_excluding_trivia(node): from the node start to the end of its last non-trivia, non-empty token
+    (the same definition as Folding.range_excluding_trivia of group outline; BridgeText.link_range_folding) *)
+Fixpoint last_sig (ls : list (SyntaxKind * N * N * text)) (acc : option N) : option N :=
+  match ls with
+  | [] => acc
+  | (k, lo, hi, _) :: r => last_sig r (if negb (sk_is_trivia k) && negb (lo =? hi) then Some hi else acc)
+  end.
+Definition range_excluding_trivia (off : N) (t : tree) : N * N :=
+  (off, match last_sig (leaves_from off t) None with Some hi => hi | None => off end).
 
 (** the items of file_system.rs::list_includes / handlers/document_link.rs: the Include descendants in
     document order with the include string (String::value) and the link range (range_excluding_trivia of
@@ -91,7 +104,10 @@ Fixpoint number_from {A : Type} (k : N) (l : list A) : list (N * A) :=
 Record analysis : Type := mkAn {
   an_files : list (N * pfile);                  (* workspace files by ascending FileId; position = file number *)
   an_perrs : list (N * N * N * parse_msg);      (* (file number, lo, hi, message) of every parse error *)
-  an_core : res workspace                       (* Err = coreast.rs "noncore" *)
+  an_cores : list (res (list stmt));            (* per file, in file-number order *)
+  an_core : res workspace;                      (* Err = coreast.rs "noncore": the first file that fails *)
+  an_shape : bool                               (* AstToCore.ident_shape holds for every tree (checked hypothesis
+                                                   of BridgeProofs.core_idents_are_id_tokens) *)
 }.
 
 Fixpoint insert_sorted (f : N) (l : list N) : list N :=
@@ -115,11 +131,49 @@ Fixpoint firstErr {A : Type} (l : list (res A)) : res (list A) :=
   | Fuel :: _ => Fuel
   end.
 
+(** the links of file [f] as coreast.rs computes them: Analysis::document_link, targets renumbered by position
+    in the sorted id list (links to files outside the workspace are dropped: `num.get(&l.target)`) *)
+Definition links_for (ids : list N) (doclinks : N -> list (Includes.rng * N)) (f : N) : list (N * N * N) :=
+  flat_map (fun lt : Includes.rng * N =>
+              match index_of (snd lt) ids 0 with
+              | Some k => [(fst (fst lt), snd (fst lt), k)]
+              | None => []
+              end) (doclinks f).
+
+Definition core_of_pfile (ids : list N) (doclinks : N -> list (Includes.rng * N)) (kfp : N * (N * pfile)) : res (list stmt) :=
+  match pf_tree (snd (snd kfp)) with
+  | Some t => core_of_tree (fst kfp) (links_for ids doclinks (fst (snd kfp))) t
+  | None => Err "parser panic or out of fuel"%string
+  end.
+
+(** the per-file loop of `fn run` and the final assembly: [ids] = the workspace's FileIds in ascending order,
+    [wsf] = (FileId, parsed file) in the same order *)
+Definition assemble (ids : list N) (doclinks : N -> list (Includes.rng * N)) (wsf : list (N * pfile)) : analysis :=
+  let cores := map (core_of_pfile ids doclinks) (number_from 0 wsf) in
+  let perrs := flat_map (fun kfp : N * (N * pfile) =>
+                           map (fun e : N * N * parse_msg => (fst kfp, fst (fst e), snd (fst e), snd e))
+                               (pf_errors (snd (snd kfp)))) (number_from 0 wsf) in
+  mkAn wsf perrs cores
+       (match firstErr cores with
+        | Ok fl => Ok (mkWs fl (map (fun e => mkR (fst (fst (fst e))) (snd (fst (fst e))) (snd (fst e))) perrs))
+        | Err e => Err e
+        | Fuel => Fuel
+        end)
+       (forallb (fun fp : N * pfile => match pf_tree (snd fp) with Some t => ident_shape t | None => true end) wsf).
+
+Fixpoint all_some {A : Type} (l : list (option A)) : option (list A) :=
+  match l with
+  | [] => Some []
+  | Some a :: r => match all_some r with Some r' => Some (a :: r') | None => None end
+  | None :: _ => None
+  end.
+
 (** [analyze pfuel cfuel files root]: [files] = the in-memory disk (path string, text), [root] the root path
-    string; [pfuel] bounds the parser's interpreter, [cfuel] the number of files collect_sources visits *)
+    string; [pfuel] bounds the parser's interpreter, [cfuel] the number of files collect_sources visits.
+    [None] = a modelled panic of the host layer (salsa input read before it was set, no parent directory) or
+    [cfuel] too small. *)
 Definition analyze (pfuel cfuel : nat) (files : list (text * text)) (root : text) : option analysis :=
-  let parsed : list pfile :=
-    map (fun pt => mkPf (components (fst pt)) (bytes (snd pt)) (parse_with pfuel grammar_prog grammar_entry (snd pt))) files in
+  let parsed : list pfile := map (fun pt => parse_file pfuel (components (fst pt)) (snd pt)) files in
   let tagged := number_from 0 parsed in
   let disk_files := map (fun tp => (pf_path (snd tp), content_of (fst tp) (snd tp))) tagged in
   let w : Includes.world fpath text := {| Includes.disk := fun p => Includes.assoc p disk_files; Includes.extra := [] |} in
@@ -137,40 +191,20 @@ Definition analyze (pfuel cfuel : nat) (files : list (text * text)) (root : text
       | None => None
       | Some (fset, _) =>
           let ids := sort_ids (map fst fset) in
-          let pfile_of (f : N) : option pfile :=
+          let pfile_of (f : N) : option (N * pfile) :=
             match Includes.fc db2 f with
             | Some c => match nth_error parsed (N.to_nat (Includes.c_tag c)) with
-                        | Some p => Some p
-                        | None => Some (mkPf rootp 0 (parse_with pfuel grammar_prog grammar_entry []))   (* a root that is not on the disk: "" *)
+                        | Some p => Some (f, p)
+                        | None => Some (f, parse_file pfuel rootp [])       (* a root that is not on the disk: "" *)
                         end
-            | None => None
+            | None => None                                                  (* db.parse(f) on an unset input: panic *)
             end in
-          let wsf := flat_map (fun f => match pfile_of f with Some p => [(f, p)] | None => [] end) ids in
-          let links_of (f : N) : list (N * N * N) :=
-            match Host.document_link db2 f with
-            | Includes.Done l =>
-                flat_map (fun lt : Includes.rng * N =>
-                            match index_of (snd lt) ids 0 with
-                            | Some k => [(fst (fst lt), snd (fst lt), k)]
-                            | None => []
-                            end) l
-            | _ => []
-            end in
-          let cores := map (fun kfp : N * (N * pfile) =>
-                              let '(k, (f, p)) := kfp in
-                              match pf_tree p with
-                              | Some t => core_of_tree k (links_of f) t
-                              | None => Err "parser panic or out of fuel"%string
-                              end) (number_from 0 wsf) in
-          let perrs := flat_map (fun kfp : N * (N * pfile) =>
-                                   map (fun e : N * N * parse_msg => (fst kfp, fst (fst e), snd (fst e), snd e))
-                                       (pf_errors (snd (snd kfp)))) (number_from 0 wsf) in
-          Some (mkAn wsf perrs
-                     (match firstErr cores with
-                      | Ok fl => Ok (mkWs fl (map (fun e => mkR (fst (fst (fst e))) (snd (fst (fst e))) (snd (fst e))) perrs))
-                      | Err e => Err e
-                      | Fuel => Fuel
-                      end))
+          let doclinks (f : N) : list (Includes.rng * N) :=
+            match Host.document_link db2 f with Includes.Done l => l | _ => [] end in
+          match all_some (map pfile_of ids) with
+          | Some wsf => Some (assemble ids doclinks wsf)
+          | None => None
+          end
       end
   | _ => None
   end.
